@@ -30,6 +30,8 @@ def main():
     import tv_check
     if not tv_check.build_tvdump():
         rc |= 1
+    if not tv_check.build_tvaig():
+        rc |= 1
     sys.exit(1 if rc else 0)
 
 
